@@ -144,6 +144,9 @@ func c03Check(in []byte, vr *rjson.ValueReader) (info c03Info, err error) {
 
 // CheckC03 uses a fresh reader (reader reuse is C15's subject).
 func CheckC03(c *core.Case) error {
+	if c.Kind == "cold" {
+		return checkCold(c)
+	}
 	_, err := c03Check(inputOf(c), nil)
 	return err
 }
